@@ -196,3 +196,392 @@ Definition check_C05 (g : graph) (vw : list Z) (p0 : list nat) (cap : Z) (tasks 
   && check_caps vw p0 (part_count p0) cap (o_part o)
   && check_moves p0 o
   && trace_mutex g (repeat TIdle tasks) tr.
+
+(* ====================================================================== *)
+(* The machine.  One [step] = one shared-memory access of one worker plus  *)
+(* the thread-local computation that follows it up to the next access.     *)
+(* [None] stands for a Rust panic (index out of bounds, `unwrap` on None). *)
+(* ====================================================================== *)
+
+(* what does not change during a run *)
+Record config := mkCfg {
+  cf_g : graph;
+  cf_vw : list Z;                  (* vertex weights *)
+  cf_k : nat;                      (* part_count *)
+  cf_ipt : nat;                    (* items_per_thread *)
+  cf_tc : nat;                     (* thread_count = number of chunks of a pass *)
+  cf_cap : Z;                      (* max_part_weight *)
+  cf_hr : Z -> nat -> option Z     (* the per-thread share of a headroom: [headroom_f64] in the runs *)
+}.
+
+Record metadata := mkMd {
+  md_gain : Z; md_pass : Z; md_attempts : Z; md_moves : Z;
+  md_races : Z; md_locked : Z; md_nogain : Z; md_badbal : Z
+}.
+Definition md_zero := mkMd 0 0 0 0 0 0 0 0.
+Definition md_merge (a b : metadata) : metadata :=
+  mkMd (md_gain a + md_gain b) (md_pass a + md_pass b) (md_attempts a + md_attempts b)
+       (md_moves a + md_moves b) (md_races a + md_races b) (md_locked a + md_locked b)
+       (md_nogain a + md_nogain b) (md_badbal a + md_badbal b).
+Definition md_attempt (m : metadata) := mkMd (md_gain m) (md_pass m) (md_attempts m + 1) (md_moves m) (md_races m) (md_locked m) (md_nogain m) (md_badbal m).
+Definition md_move (g : Z) (m : metadata) := mkMd (md_gain m + g) (md_pass m) (md_attempts m) (md_moves m + 1) (md_races m) (md_locked m) (md_nogain m) (md_badbal m).
+Definition md_race (m : metadata) := mkMd (md_gain m) (md_pass m) (md_attempts m) (md_moves m) (md_races m + 1) (md_locked m) (md_nogain m) (md_badbal m).
+Definition md_lock (m : metadata) := mkMd (md_gain m) (md_pass m) (md_attempts m) (md_moves m) (md_races m) (md_locked m + 1) (md_nogain m) (md_badbal m).
+Definition md_no_gain (m : metadata) := mkMd (md_gain m) (md_pass m) (md_attempts m) (md_moves m) (md_races m) (md_locked m) (md_nogain m + 1) (md_badbal m).
+Definition md_bad_bal (m : metadata) := mkMd (md_gain m) (md_pass m) (md_attempts m) (md_moves m) (md_races m) (md_locked m) (md_nogain m) (md_badbal m + 1).
+Definition md_passes (m : metadata) := mkMd (md_gain m) (md_pass m + 1) (md_attempts m) (md_moves m) (md_races m) (md_locked m) (md_nogain m) (md_badbal m).
+
+(* why the lock guard is being dropped *)
+Inductive ureason := URaced | UNoMove | UMoved.
+
+(* Program counter = the NEXT shared access of the worker, with the local
+   variables that are live across it.  [todo] lists are the not-yet-visited
+   suffix of an adjacency row, head = the entry whose vertex is accessed next.
+   [tg]/[rest] = the target part being evaluated / the later ones. *)
+Inductive pc :=
+| PScanOwn                                         (* `initial_part.load` of the chunk's vertex [w_cur] *)
+| PScanNbr (ip : nat) (todo : list (nat * Z))      (* on_cut: `partition[neighbor].load` *)
+| PCas (v : nat)                                   (* `locks[vertex].compare_exchange` *)
+| PChk (v : nat) (todo : list (nat * Z))           (* raced: `locks[neighbor].load` *)
+| POwn (v : nat)                                   (* `partition[vertex].load` *)
+| PGain (v ip tg : nat) (rest : list nat) (acc : Z) (todo : list (nat * Z)) (best : option (nat * Z))
+| PStore (v ip tg : nat) (gn : Z)                  (* `partition[vertex].store(target_part)` *)
+| PUnlock (v : nat) (r : ureason)                  (* `_lock_guard` dropped: `locks[vertex].store(false)` *)
+| PReNbr (v : nat) (todo : list (nat * Z))         (* `neighbor_part = partition[neighbor].load` *)
+| PReGain (v : nat) (todo : list (nat * Z)) (nb np tg : nat) (rest : list nat) (acc : Z)
+          (todo2 : list (nat * Z)) (best : option Z)
+| PDone.
+
+Record worker := mkW {
+  w_pc : pc;
+  w_cur : nat;                 (* the chunk's vertex being handled by the `for` loop *)
+  w_end : nat;                 (* end of the chunk (exclusive) *)
+  w_cut : list nat;            (* the `cut` stack, head = what `pop()` returns *)
+  w_pw : list Z;               (* thread-local `part_weights` *)
+  w_md : metadata
+}.
+Definition set_pc (w : worker) (p : pc) := mkW p (w_cur w) (w_end w) (w_cut w) (w_pw w) (w_md w).
+Definition set_md (w : worker) (m : metadata) := mkW (w_pc w) (w_cur w) (w_end w) (w_cut w) (w_pw w) m.
+Definition set_cut (w : worker) (c : list nat) := mkW (w_pc w) (w_cur w) (w_end w) c (w_pw w) (w_md w).
+
+(* targets `(0..part_count).filter(|t| *t != initial_part)` *)
+Definition targets (k ip : nat) : list nat := filter (fun t => negb (Nat.eqb t ip)) (seq 0 k).
+
+(* one term of the gain sums *)
+Definition gain_term (ip tg pu : nat) (ew : Z) : Z :=
+  if Nat.eqb pu ip then - ew else if Nat.eqb pu tg then ew else 0.
+
+(* `max_by(i64::cmp)` keeps the LAST maximum *)
+Definition upd_best (best : option (nat * Z)) (tg : nat) (gn : Z) : nat * Z :=
+  match best with
+  | None => (tg, gn)
+  | Some (bt, bg) => if bg <=? gn then (tg, gn) else (bt, bg)
+  end.
+Definition upd_max (best : option Z) (gn : Z) : Z :=
+  match best with None => gn | Some b => Z.max b gn end.
+
+(* next iteration of the chunk's `for` loop *)
+Definition scan_next (w : worker) : worker :=
+  let c := S (w_cur w) in
+  mkW (if Nat.ltb c (w_end w) then PScanOwn else PDone) c (w_end w) (w_cut w) (w_pw w) (w_md w).
+
+(* head of `make_move`'s loop: pop a vertex or return false to the `for` loop *)
+Definition enter_make_move (w : worker) : worker :=
+  match w_cut w with
+  | [] => scan_next w
+  | v :: rest => mkW (PCas v) (w_cur w) (w_end w) rest (w_pw w) (md_attempt (w_md w))
+  end.
+
+(* the post-move loop over the moved vertex's neighbours *)
+Definition re_start (w : worker) (v : nat) (todo : list (nat * Z)) : worker :=
+  match todo with
+  | [] => enter_make_move w          (* make_move returned true: the `while` calls it again *)
+  | _ => set_pc w (PReNbr v todo)
+  end.
+
+(* all targets evaluated: gain / balance tests of make_move *)
+Definition decide (cf : config) (tmax : list Z) (w : worker) (v ip : nat) (b : nat * Z) : option worker :=
+  let '(bt, bg) := b in
+  if bg <=? 0 then Some (set_pc (set_md w (md_no_gain (w_md w))) (PUnlock v UNoMove))
+  else
+    match nth_opt (cf_vw cf) v, nth_opt (w_pw w) bt, nth_opt tmax bt with
+    | Some wv, Some pwt, Some mx =>
+        if mx <? wv + pwt then Some (set_pc (set_md w (md_bad_bal (w_md w))) (PUnlock v UNoMove))
+        else Some (set_pc w (PStore v ip bt bg))
+    | _, _, _ => None
+    end.
+
+Definition b2n (b : bool) : nat := if b then 1%nat else 0%nat.
+
+(* one access of worker [w] on the shared [locks] and [part] *)
+Definition wstep (cf : config) (tmax : list Z) (locks : list bool) (part : list nat) (w : worker)
+  : option (list bool * list nat * worker) :=
+  let g := cf_g cf in
+  match w_pc w with
+  | PScanOwn =>
+      match nth_opt part (w_cur w) with
+      | None => None
+      | Some ip =>
+        match row g (w_cur w) with
+        | [] => Some (locks, part, scan_next w)
+        | r => Some (locks, part, set_pc w (PScanNbr ip r))
+        end
+      end
+  | PScanNbr ip [] => None
+  | PScanNbr ip ((u, _) :: todo) =>
+      match nth_opt part u with
+      | None => None
+      | Some pu =>
+        if negb (Nat.eqb pu ip) then Some (locks, part, enter_make_move (set_cut w (w_cur w :: w_cut w)))
+        else match todo with
+             | [] => Some (locks, part, scan_next w)
+             | _ => Some (locks, part, set_pc w (PScanNbr ip todo))
+             end
+      end
+  | PCas v =>
+      match nth_opt locks v with
+      | None => None
+      | Some true => Some (locks, part, enter_make_move (set_md w (md_lock (w_md w))))
+      | Some false =>
+        Some (set_nth locks v true, part,
+              set_pc w (match row g v with [] => POwn v | r => PChk v r end))
+      end
+  | PChk v [] => None
+  | PChk v ((u, _) :: todo) =>
+      match nth_opt locks u with
+      | None => None
+      | Some true => Some (locks, part, set_pc (set_md w (md_race (w_md w))) (PUnlock v URaced))
+      | Some false => Some (locks, part, set_pc w (match todo with [] => POwn v | _ => PChk v todo end))
+      end
+  | POwn v =>
+      match nth_opt part v with
+      | None => None
+      | Some ip =>
+        match targets (cf_k cf) ip with
+        | [] => None                                     (* `.max_by(..).unwrap()` on an empty iterator *)
+        | tg :: rest =>
+          match row g v with
+          | [] => Some (locks, part, set_pc (set_md w (md_no_gain (w_md w))) (PUnlock v UNoMove))
+          | r => Some (locks, part, set_pc w (PGain v ip tg rest 0 r None))
+          end
+        end
+      end
+  | PGain v ip tg rest acc [] best => None
+  | PGain v ip tg rest acc ((u, ew) :: todo) best =>
+      match nth_opt part u with
+      | None => None
+      | Some pu =>
+        let acc' := acc + gain_term ip tg pu ew in
+        match todo with
+        | _ :: _ => Some (locks, part, set_pc w (PGain v ip tg rest acc' todo best))
+        | [] =>
+          let b := upd_best best tg acc' in
+          match rest with
+          | tg' :: rest' => Some (locks, part, set_pc w (PGain v ip tg' rest' 0 (row g v) (Some b)))
+          | [] => match decide cf tmax w v ip b with
+                  | Some w' => Some (locks, part, w')
+                  | None => None
+                  end
+          end
+        end
+      end
+  | PStore v ip tg gn =>
+      match nth_opt (cf_vw cf) v, nth_opt (w_pw w) ip, nth_opt (w_pw w) tg with
+      | Some wv, Some a, Some _ =>
+        if Nat.ltb v (length part) then
+          let pw1 := set_nth (w_pw w) ip (a - wv) in
+          match nth_opt pw1 tg with
+          | Some b =>
+            let pw2 := set_nth pw1 tg (b + wv) in
+            Some (locks, set_nth part v tg,
+                  mkW (PUnlock v UMoved) (w_cur w) (w_end w) (w_cut w) pw2 (md_move gn (w_md w)))
+          | None => None
+          end
+        else None
+      | _, _, _ => None
+      end
+  | PUnlock v r =>
+      if Nat.ltb v (length locks) then
+        Some (set_nth locks v false, part,
+              match r with
+              | UMoved => re_start w v (row g v)
+              | _ => enter_make_move w
+              end)
+      else None
+  | PReNbr v [] => None
+  | PReNbr v ((nb, _) :: todo) =>
+      match nth_opt part nb with
+      | None => None
+      | Some np =>
+        match targets (cf_k cf) np with
+        | [] => None
+        | tg :: rest =>
+          match row g nb with
+          | [] => Some (locks, part, re_start w v todo)          (* gain 0: not pushed *)
+          | r2 => Some (locks, part, set_pc w (PReGain v todo nb np tg rest 0 r2 None))
+          end
+        end
+      end
+  | PReGain v todo nb np tg rest acc [] best => None
+  | PReGain v todo nb np tg rest acc ((u, ew) :: todo2) best =>
+      match nth_opt part u with
+      | None => None
+      | Some pu =>
+        let acc' := acc + gain_term np tg pu ew in
+        match todo2 with
+        | _ :: _ => Some (locks, part, set_pc w (PReGain v todo nb np tg rest acc' todo2 best))
+        | [] =>
+          let b := upd_max best acc' in
+          match rest with
+          | tg' :: rest' => Some (locks, part, set_pc w (PReGain v todo nb np tg' rest' 0 (row g nb) (Some b)))
+          | [] =>
+            let w1 := if 0 <? b then set_cut w (nb :: w_cut w) else w in
+            Some (locks, part, re_start w1 v todo)
+          end
+        end
+      end
+  | PDone => None
+  end.
+
+(* ------------------------------------------------------ global machine *)
+
+Record gstate := mkG {
+  g_locks : list bool;
+  g_part : list nat;
+  g_ws : list worker;
+  g_pw : list Z;               (* `part_weights` at the start of the current pass *)
+  g_tmax : list Z;             (* `thread_max_pws` of the current pass *)
+  g_md : metadata;             (* merged metadata of the completed passes (+ pass_count) *)
+  g_fin : bool                 (* the outer loop has exited *)
+}.
+
+Definition n_of (cf : config) : nat := length (cf_g cf).
+
+(* the worker of chunk [i] at the start of a pass *)
+Definition init_worker (cf : config) (pw : list Z) (i : nat) : worker :=
+  mkW PScanOwn (cf_ipt cf * i) (Nat.min (cf_ipt cf * S i) (n_of cf)) [] pw md_zero.
+Definition init_workers (cf : config) (pw : list Z) : list worker :=
+  map (init_worker cf pw) (seq 0 (cf_tc cf)).
+
+(* thread_max_pws: pw + from_f64((max_part_weight - pw) / thread_count) *)
+Fixpoint thread_max (cf : config) (pw : list Z) : option (list Z) :=
+  match pw with
+  | [] => Some []
+  | x :: t =>
+    match cf_hr cf (cf_cap cf - x) (cf_tc cf), thread_max cf t with
+    | Some h, Some r => Some ((x + h) :: r)
+    | _, _ => None
+    end
+  end.
+
+Definition all_done (ws : list worker) : bool :=
+  forallb (fun w => match w_pc w with PDone => true | _ => false end) ws.
+
+(* reduce: element-wise sum of the thread-local part weights, from a zero vector *)
+Fixpoint vec_add (a b : list Z) : list Z :=
+  match a, b with x :: a', y :: b' => (x + y) :: vec_add a' b' | _, _ => [] end.
+Definition pw_sum (k : nat) (ws : list worker) : list Z :=
+  fold_right (fun w acc => vec_add acc (w_pw w)) (repeat 0 k) ws.
+(* PW <- (sum_i tPW_i) - (thread_count - 1) * PW *)
+Fixpoint pw_merge (tc : nat) (sum pw : list Z) : list Z :=
+  match sum, pw with
+  | s :: sum', x :: pw' => (s - (Z.of_nat tc - 1) * x) :: pw_merge tc sum' pw'
+  | _, _ => []
+  end.
+
+(* end of a pass: merge, then either leave the outer loop or start the next pass *)
+Definition end_pass (cf : config) (st : gstate) : option gstate :=
+  let pmd := fold_right (fun w acc => md_merge acc (w_md w)) md_zero (g_ws st) in
+  let pw' := pw_merge (cf_tc cf) (pw_sum (cf_k cf) (g_ws st)) (g_pw st) in
+  let md' := md_merge (g_md st) pmd in
+  if md_gain pmd =? 0 then
+    Some (mkG (g_locks st) (g_part st) (g_ws st) pw' (g_tmax st) md' true)
+  else
+    match thread_max cf pw' with
+    | None => None
+    | Some tm => Some (mkG (g_locks st) (g_part st) (init_workers cf pw') pw' tm (md_passes md') false)
+    end.
+
+Definition step (cf : config) (st : gstate) (tid : nat) : option gstate :=
+  if g_fin st then None
+  else
+    match nth_opt (g_ws st) tid with
+    | None => None
+    | Some w =>
+      match wstep cf (g_tmax st) (g_locks st) (g_part st) w with
+      | None => None
+      | Some (locks', part', w') =>
+        let st' := mkG locks' part' (set_nth (g_ws st) tid w') (g_pw st) (g_tmax st) (g_md st) false in
+        if all_done (g_ws st') then end_pass cf st' else Some st'
+      end
+    end.
+
+(* a schedule = the sequence of workers chosen by the scheduler *)
+Fixpoint run (cf : config) (st : gstate) (sch : list nat) : option gstate :=
+  match sch with
+  | [] => Some st
+  | t :: r => match step cf st t with Some st' => run cf st' r | None => None end
+  end.
+
+(* arc_swap's prologue for the initial partition [p0] *)
+Definition init_state (cf : config) (p0 : list nat) : option gstate :=
+  let pw := loads (cf_vw cf) p0 (cf_k cf) in
+  match thread_max cf pw with
+  | None => None
+  | Some tm =>
+    Some (mkG (repeat false (length p0)) p0 (init_workers cf pw) pw tm (md_passes md_zero) false)
+  end.
+
+(* the configuration arc_swap derives from its arguments and the pool size [T] *)
+Definition config_of (hr : Z -> nat -> option Z) (g : graph) (vw : list Z) (p0 : list nat) (T : nat) (cap : Z) : config :=
+  let '(ipt, tc) := work_share (length p0) T in
+  mkCfg g vw (part_count p0) ipt tc cap hr.
+
+(* --------------------------------------------- replay of a recorded trace *)
+
+(* the access worker [w] performs next, and the value it reads / writes *)
+Definition next_access (locks : list bool) (part : list nat) (w : worker) : option (akind * nat * nat) :=
+  let rd u := match nth_opt part u with Some x => Some (KReadPart, u, x) | None => None end in
+  match w_pc w with
+  | PScanOwn => rd (w_cur w)
+  | PScanNbr _ ((u, _) :: _) => rd u
+  | PCas v => match nth_opt locks v with Some b => Some (KCas, v, b2n (negb b)) | None => None end
+  | PChk _ ((u, _) :: _) => match nth_opt locks u with Some b => Some (KReadLock, u, b2n b) | None => None end
+  | POwn v => rd v
+  | PGain _ _ _ _ _ ((u, _) :: _) _ => rd u
+  | PStore v _ tg _ => Some (KStorePart, v, tg)
+  | PUnlock v _ => Some (KUnlock, v, O)
+  | PReNbr _ ((nb, _) :: _) => rd nb
+  | PReGain _ _ _ _ _ _ _ ((u, _) :: _) _ => rd u
+  | _ => None
+  end.
+
+Definition akind_eqb (a b : akind) : bool :=
+  match a, b with
+  | KCas, KCas | KReadLock, KReadLock | KReadPart, KReadPart | KStorePart, KStorePart | KUnlock, KUnlock => true
+  | _, _ => false
+  end.
+
+(* every recorded event must be the enabled next access of its task, with the same value *)
+Fixpoint replay (cf : config) (st : gstate) (tr : list event) : option gstate :=
+  match tr with
+  | [] => Some st
+  | e :: r =>
+    match nth_opt (g_ws st) (e_task e) with
+    | None => None
+    | Some w =>
+      match next_access (g_locks st) (g_part st) w with
+      | Some (k, i, v) =>
+        if akind_eqb k (e_kind e) && Nat.eqb i (e_idx e) && Nat.eqb v (e_val e) then
+          match step cf st (e_task e) with
+          | Some st' => replay cf st' r
+          | None => None
+          end
+        else None
+      | None => None
+      end
+    end
+  end.
+
+Definition md_list (m : metadata) : list Z :=
+  [md_gain m; md_pass m; md_attempts m; md_moves m; md_races m; md_locked m; md_nogain m; md_badbal m].
